@@ -353,6 +353,18 @@ fn write_case(out: &mut Out, r: &mut Rng, g: &Graph) {
 
 fn main() {
     quiet_panics();
+    if let Ok(path) = std::env::var("C35_PROBE") {
+        // debugging aid: each line is a query using $q0 (bound to true) and $q1 (bound to 1)
+        let (store, _) = build_store(&fixed_graph());
+        for q in std::fs::read_to_string(path).unwrap().lines() {
+            if q.trim().is_empty() {
+                continue;
+            }
+            let ps = vec![(0u32, Val::Bool(true)), (1u32, Val::Int(1))];
+            println!("Q: {}\n   params : {}\n   inlined: {}", q, human_obs(&run_engine(&store, q, &ps)), human_obs(&run_engine(&store, &inline_text(q, &ps), &[])));
+        }
+        return;
+    }
     let args = parse_args();
     let mut out = Out::new(&args, "From Verif Require Import CypherCore Cypher.", "Cypher.case", "Cypher.check_case", 125);
     out.rule = "random property graphs (<=6 nodes, <=10 relationships) x generated queries of the C01 fragment in which \
@@ -362,7 +374,7 @@ fn main() {
                 Each case runs the parameterised query and its inlined twin on the engine. Non-trivial = at least \
                 one parameter and a non-empty or failing parameterised answer; distinct by (graph, query, params)."
         .to_string();
-    let n = if args.thorough { 16000 } else { 1600 };
+    let n = if args.thorough { 10000 } else { 1600 };
     let mut graph_cache: Option<(u64, samyama::graph::GraphStore, Graph)> = None;
     for c in 0..n {
         let gi = c / 4;
@@ -471,7 +483,16 @@ fn main() {
         let nontrivial = !params.is_empty() && !matches!(&obs_p, Obs::Ok(rows) if rows.is_empty());
         let i = out.case(gal, human.clone(), nontrivial);
         if let Some(d) = verdict {
-            out.fail(i, &human, &d, None);
+            // known finding: a parameter in the WHERE of a WITH that is followed by another WITH
+            // is not substituted; the filter swallows the error and drops every row
+            let mentions_param = |e: &Expr| render_expr(e).contains("$q");
+            let known = q.parts.iter().any(|s| {
+                s.clauses.iter().enumerate().any(|(k, c)| {
+                    matches!(c, Clause::With(_, Some(w)) if mentions_param(w))
+                        && s.clauses[k + 1..].iter().any(|c2| matches!(c2, Clause::With(..)))
+                })
+            });
+            out.fail(i, &human, &d, if known { Some("param_in_earlier_with_where") } else { None });
         }
         if windowed {
             // the inlined twin, checked against the reference semantics as well
@@ -491,6 +512,17 @@ fn main() {
                 "CREATE (n:A) SET n.p0 = $q0 RETURN n.p0 AS x with $q0 = 2: engine {}, inlined Ok[(2)]",
                 human_obs(&obs)
             ),
+        });
+    }
+    {
+        let (st, _) = build_store(&fixed_graph());
+        let q = "MATCH (n) WITH n AS m WHERE $q0 WITH m AS k RETURN id(k) AS x";
+        let obs = run_engine(&st, q, &[(0, Val::Bool(true))]);
+        let same = matches!(&obs, Obs::Ok(rows) if rows.len() == 4);
+        out.known.push(KnownReplay {
+            class: "param_in_earlier_with_where".to_string(),
+            still_fails: !same && !matches!(obs, Obs::Err(_)),
+            detail: format!("{} with $q0 = true: engine {}, inlined Ok[(1) (2) (3) (4)]", q, human_obs(&obs)),
         });
     }
     out.finish();
